@@ -23,8 +23,10 @@ import (
 	"errors"
 	"fmt"
 	"io"
+	"maps"
 	"net/http"
 	"net/url"
+	"slices"
 	"time"
 
 	"github.com/rs/zerolog"
@@ -187,9 +189,10 @@ func (e Endpoint) Hash() []byte {
 	hash.Write(stringx.ToBytes(e.Method))
 
 	buf := bytes.NewBufferString("")
-	for k, v := range e.Headers {
+	// in sorted order: the digest must not depend on the iteration order of the map
+	for _, k := range slices.Sorted(maps.Keys(e.Headers)) {
 		buf.Write(stringx.ToBytes(k))
-		buf.Write(stringx.ToBytes(v))
+		buf.Write(stringx.ToBytes(e.Headers[k]))
 	}
 
 	hash.Write(buf.Bytes())
